@@ -15,12 +15,15 @@ type checkDef struct {
 var registry = map[string]checkDef{
 	"C02": {"exploration", C02},
 	"C03": {"exploration", C03},
+	"C04": {"exploration", C04},
 	"C05": {"exploration", C05},
 	"C06": {"exploration", C06},
 	"C10": {"exploration", C10},
 	"C11": {"exploration", C11},
 	"C14": {"exploration", C14},
+	"C16": {"exploration", C16},
 	"C17": {"exploration", C17},
+	"C19": {"exploration", C19},
 }
 
 // Main runs one check and returns the process exit code.
